@@ -152,3 +152,23 @@ mod tests {
         assert_eq!(a.index_in_trajectory(), 0);
     }
 }
+
+#[cfg(nuts_rs_verif)]
+impl<M: Math, P: Point<M>> StatePool<M, P> {
+    /// Number of cells currently on the free list.
+    pub fn verif_free_len(&self) -> usize {
+        self.storage.free_states.borrow().len()
+    }
+}
+
+#[cfg(nuts_rs_verif)]
+impl<M: Math, P: Point<M>> State<M, P> {
+    /// `(strong count, weak count, address of the cell)`
+    pub fn verif_counts(&self) -> (usize, usize, usize) {
+        (
+            Rc::strong_count(&self.inner),
+            Rc::weak_count(&self.inner),
+            Rc::as_ptr(&self.inner) as *const u8 as usize,
+        )
+    }
+}
